@@ -2,7 +2,7 @@
 REG_DRAFT = dict(
     engine='E1-enum',
     technique='bounded-exhaustive enumeration of block nestings x exit statement x probe position x probed name, executed on the real interpreter (whole programs and two-request sessions), compared with a scope model taken from the statement and with the fall-through variant of the same shape',
-    text="Every nesting of depth <=3 (quick) / <=4 (thorough) over the block kinds {while body, for body, if-then, else, match arm with braces, match arm without braces, function body, closure body}, with fall-through / break / continue / return at the innermost level wherever the exit is meaningful, a variable declared in every block (let, match pattern, for variable) and an outer x shadowed in every block. After the construct (and after every nested construct, so that leaks inside a function frame are seen too) one probe per program reads one name: names of blocks that were left must raise 'No such variable', x must have the value of the block the probe is in, enclosing variables must still be readable; every result is also compared with the fall-through variant of the same nesting. Each case is run as a program and, for the top-level probe, as a session (construct in one request, probe in the next).",
+    text="Every nesting of depth <=3 (quick) / <=4 (thorough) over the block kinds {while body, for body, if-then, else, match arm with braces, match arm without braces, function body, closure body}, with fall-through / break / continue / return at the innermost level wherever the exit is meaningful, a variable declared in every block (let, match pattern, for variable) and an outer x shadowed in every block. After the construct (and after every nested construct, so that leaks inside a function frame are seen too) one probe per program reads one name: names of blocks that were left must raise 'No such variable', x must have the value of the block the probe is in, enclosing variables must still be readable; every result is also compared with the fall-through variant of the same nesting. Each case is run as a program and, for the top-level probe, as a session (construct in one request, probe in the next; once with the construct followed by a last expression `0` and once with the construct as the last expression of its request).",
     note="Blocks of try/catch and bare `{}` blocks, exits in non-final position, exits under a condition that changes between iterations, and more than two loop iterations are not enumerated. A top-level `return` is only observable in a session (it ends a program).",
     design_ref='DESIGN.md §6 C06',
 )
@@ -201,6 +201,41 @@ def crossed(path, exit):
     return ("toplevel>" if t == 0 else "") + pstr(seg)
 
 
+def cli_session(ctx, inputs, deadline_s=30):
+    """The same requests through the real `garden json` (Content-Length framing). Returns the `evaluate` responses, in order."""
+    import os, select, subprocess, time
+    data = b""
+    for src in inputs:
+        body = json.dumps({"method": "run", "input": src}).encode()
+        data += b"Content-Length: %d\n" % len(body) + body + b"\n"
+    p = subprocess.Popen([ctx.binary, "json"], stdin=subprocess.PIPE, stdout=subprocess.PIPE, stderr=subprocess.DEVNULL, cwd=ctx.scratch)
+    out = []
+    try:
+        p.stdin.write(data)
+        p.stdin.flush()
+        buf, end = b"", time.time() + deadline_s
+        while len(out) < len(inputs) and time.time() < end:
+            r, _, _ = select.select([p.stdout], [], [], 0.5)
+            if not r:
+                continue
+            chunk = os.read(p.stdout.fileno(), 1 << 16)
+            if not chunk:
+                break
+            buf += chunk
+            while b"\n" in buf:
+                line, buf = buf.split(b"\n", 1)
+                try:
+                    o = json.loads(line)
+                except ValueError:
+                    continue
+                if isinstance(o.get("kind"), dict) and "evaluate" in o["kind"]:
+                    out.append(o["kind"]["evaluate"]["value"])
+    finally:
+        p.kill()
+        p.wait()
+    return out
+
+
 def article(kind):
     return ("an " if kind[0] in "aeiou" else "a ") + kind
 
@@ -302,10 +337,16 @@ def run(ctx):
                 ctx.violation(f"{ex}: enclosing variables differ from the fall-through variant: {o[0]} [{sx}]", base, cli_cmd=cli)
     if n_unbound == 0 or n_vals == 0:
         raise Machinery("vacuous: no probe gave 'No such variable' or no probe read a value")
-    # confirm one instance per program-context signature through the real CLI
+    # confirm one instance per signature through the real CLI (`garden run`, `garden json`)
     for sig, v in ctx.violations.items():
         d = v["detail"]
         if d["context"] != "program":
+            vals = cli_session(ctx, d["src"])
+            d["cli_session_values"] = vals
+            if len(vals) == 2 and d["observed"][0] == "values" and vals[1] == {"Ok": d["observed"][1][0]}:
+                ctx.cov["cli_confirmed"] += 1
+            elif len(vals) == 2 and d["observed"][0] == "values":
+                raise Machinery(f"adapter drift: in-process session verdict '{sig}' is not reproduced by `garden json`: {vals}")
             continue
         path_ = ctx.tmpfile("confirm.gdn", d["src"])
         rc, out, err = ctx.cli(["run", path_], stdin=b"", timeout=60)
